@@ -772,6 +772,51 @@ func genExclude(out *hlib.Out, n int, long int) {
 	}
 }
 
+// genFuzz feeds every parser unstructured bytes and corrupted canonical strings (totality under recover;
+// the model must still agree on accept/reject and value).
+func genFuzz(out *hlib.Out, n int) {
+	seeds := map[string][]string{
+		"portrange":  {"80", "1-65535", "22-4567"},
+		"portranges": {"80,443,8000-8100", "1-2,3-4,5"},
+		"portsfile":  {"80\n443 # tls\n\n8000-8100\r\n", "# ports\n 22 \n"},
+		"rate":       {"1000/s", "5000/7m", "10/1h30m", "7/1.5s", "3/250ms"},
+		"payload":    {`\x01\x02abc`, `a\n\t\u00e9\101`, "h\xc3\xa9llo"},
+		"ipflags":    {"df,evil,mf", "DF"},
+		"tcpflags":   {"syn,ack,fin,rst,psh,urg,ece,cwr,ns", "FIN,ack"},
+		"exclude":    {"10.0.0.0/8\n192.168.1.1 # gw\n", "1.2.3.4\r\n"},
+	}
+	kinds := make([]string, 0, len(seeds))
+	for k := range seeds {
+		kinds = append(kinds, k)
+	}
+	sort.Strings(kinds)
+	for _, k := range kinds {
+		for i := 0; i < n; i++ {
+			if rnd.Intn(3) == 0 {
+				out.Put(run(k, "fuzz-bytes", rnd.Bytes(rnd.Intn(24))))
+				continue
+			}
+			b := []byte(seeds[k][rnd.Intn(len(seeds[k]))])
+			for m := 1 + rnd.Intn(3); m > 0 && len(b) > 0; m-- {
+				p := rnd.Intn(len(b))
+				switch rnd.Intn(5) {
+				case 0:
+					b[p] ^= 1 << uint(rnd.Intn(8))
+				case 1:
+					b = append(b[:p], b[p+1:]...)
+				case 2:
+					b = append(b[:p], append([]byte{byte(rnd.Intn(256))}, b[p:]...)...)
+				case 3:
+					b = append(b[:p], append([]byte(pick("-", ",", "/", ".", "\\", "\"", " ", "\n", "#", "0", "s")), b[p:]...)...)
+				default:
+					b = append(b, b[p:]...)
+				}
+			}
+			out.Put(run(k, "fuzz-mutated", b))
+		}
+	}
+}
+
 // libraryFacts checks the two facts about unicode.ToLower the model of strings.ToLower relies on.
 func libraryFacts(out *hlib.Out) {
 	var toASCII []int64
@@ -789,6 +834,7 @@ func main() {
 	n := flag.Int("n", 300, "generated cases per parser (on top of the fixed lists)")
 	long := flag.Int("long", 6, "cases with lines around the scanner token limit, per file parser")
 	one := flag.String("one", "", "replay: kind:hex-input")
+	list := flag.String("list", "", "file with one kind:hex-input per line (corpus); only these are run")
 	flag.Parse()
 	rnd = hlib.NewRand(*seed)
 	out := hlib.NewOut(*outPath)
@@ -810,6 +856,26 @@ func main() {
 		fmt.Println(string(b))
 		return
 	}
+	if *list != "" {
+		data, err := os.ReadFile(*list)
+		if err != nil {
+			fmt.Fprintln(os.Stderr, err)
+			os.Exit(2)
+		}
+		for _, ln := range strings.Split(string(data), "\n") {
+			i := strings.IndexByte(ln, ':')
+			if i < 0 {
+				continue
+			}
+			in, err := hex.DecodeString(strings.TrimSpace(ln[i+1:]))
+			if err != nil {
+				fmt.Fprintln(os.Stderr, err)
+				os.Exit(2)
+			}
+			out.Put(run(ln[:i], "corpus", in))
+		}
+		return
+	}
 	libraryFacts(out)
 	genPortRange(out, *n)
 	genPortRanges(out, *n)
@@ -821,4 +887,5 @@ func main() {
 	genFlags(out, "ipflags", []string{"df", "evil", "mf"}, *n/2, []string{"", ",", "df,", ",df", "df,,mf", "df mf", " df", "df ", "DF", "Df,MF", "d", "dff", "dont", "0", "2",
 		"ev\u0130l", "EV\u0130L,df", "evi\u0131", "df\x00", "\xff", "df,\xff", "\xffdf", "df,evil,mf", "mf,mf"})
 	genExclude(out, *n, *long/2)
+	genFuzz(out, *n/2)
 }
